@@ -28,7 +28,7 @@ CFG = {
         "happen in the one accepting goroutine before it accepts again - an internal label of that goroutine, distinct from the arrival of the connection); Go runtime semantics assumed as in DESIGN "
         "section 6: conn.Close unblocks a pending Read/Write and makes later ones fail, deadlines fire, deferred calls "
         "run on panic, sync.Once. Pop and Write of one payload are one label (the queue length is not observable). "
-        "Error kinds (error / timeout / EOF / handler error / panic with any value incl. nil / Goexit: eight constructors of rkind, theorem c16_handler_end_kinds) take the same branch in the code and set the same "
+        "The moment quit reads s.rh and calls the exit callback is a step of its own (Pick) because the callback may run for a while before the count, the queue and the connection change (found by the thorough tier: UpdateHandler and accepted Sends can fall into that window). A peer that does not read is the label PeerPause. Error kinds (error / timeout / EOF / handler error / panic with any value incl. nil / Goexit: eight constructors of rkind, theorem c16_handler_end_kinds) take the same branch in the code and set the same "
         "flag in the model; they are distinguished in the generator only. Session.UpdateHandler is a plain store to s.rh read by both loops without synchronisation (a data race by the Go memory model when called after Start; the model takes the store as atomic and the exit callback as going to the handler in charge at the moment of the exit: theorems c16_exit_picks_current_handler, c16_exit_handler). The accept loop's error handling is modelled with its retry counter, give-up limit and Server.Close (labels AcceptFail / FdExhaust / FdRestore / SrvClose; theorems c16_temporary_error_below_limit, _at_limit, c16_accept_loop_ends_only, c16_loop_death_needs_retries); it is tied to the code by provoking genuine temporary errors of ln.Accept (EMFILE through a lowered RLIMIT_NOFILE and a filled descriptor table, public API only); the number of failed Accept calls is not observable, only bounded from above by elapsed time / configured back-off (every failure but the last is followed by a sleep of at least WithAccDelay), so 'the loop ended although fewer than acceptMaxRetry calls can have failed' is what the monitor can and does reject - an exact count would need a hook in /repo (a scripted net.Listener: Server.ln is private and only ever set by net.Listen). Not reachable through the public API and therefore not executed: the non-[]byte queue item branch of loopSend (Send only enqueues []byte), the 'error without Temporary()' branch of loopAccept (a *net.OpError always has it). echo.go is NOT covered: Echo/EchoMgr has no exit protocol of its own - no loops, no exit callback, the count is decremented only by the user's explicit ReleaseRef, Close is a bare conn.Close - so the clauses of this property (single exit, both goroutines stop, flush before close) have no counterpart in it; only Echo.Start's once-only count.Inc and the accept loop's bound through EchoMgr.ConnCount would apply, and the latter is the same loopAccept code exercised here through SessionMgr. A panic inside OnExit is outside the "
         "statement. A zero-length payload is popped and skipped by the send loop (repair 225387c; class empty-send); the "
         "flush theorem and the monitor's flush clause hold for all payloads, zero-length included (the accepted bytes "
@@ -44,7 +44,7 @@ CFG = {
         "one case = one scenario on real sessions (phases of back-to-back issued events, observation at quiescence after "
         "each phase); classes: one terminating event after 0..20 queued sends (8 events x pipe/TCP), every ordered pair "
         "of terminating events sequentially and racing in one burst, flush with 0..20 sends (burst / one by one / "
-        "stalled peer that later reads), blocked write then each event, zero-length payloads between real ones, slow drain (50-65 queued sends, local Close, write timeout 800 ms, a peer reading one chunk every 40 ms so that the drain lasts 2-4 write timeouts while no write waits near one; net.Pipe and loopback TCP with every payload byte 8 KiB on the wire and 32 KiB socket buffers; a case is emitted only when the longest interval between peer reads and the latest 2 ms watchdog tick both stayed below a third of the write timeout, else retried up to 3 times and dropped, counted in harness_meta), concurrent Sends from 2-8 goroutines on one session in one to three rounds, then Close (small payloads, and large ones: every payload symbol is 8 or 32 KiB handed to Session.Send, 40 KiB-1.1 MiB per call, folded back by the peer; the calls are released by a spin barrier so that they overlap; the phase is marked concurrent and the order in which the calls took effect is read off the observation and checked in Coq to be a permutation of them), peer bytes written after the session is over (the handler must stay silent), a third of all scenarios with a connection whose Close closes and then returns an error, every way the read handler can unwind the receive loop, each deterministically on both transports (class handler-end: panic with a string / with nil - recover() answers nil under the go 1.19 semantics of the module - / with an error value / with a user type, runtime.Goexit), histories on one manager (a session ends with a write error while a payload is in hand, then a healthy session queues several equally sized payloads before its peer reads, then Close), an exit callback that takes 300 us in all racing classes and half of the walks (schedule perturbation only), Session.UpdateHandler before Start / after Start / twice / back to the manager's handler / after the exit / racing with the terminating event (class handler/*), a terminating event in the same burst as Start (start-race/*), the accept loop under genuine temporary Accept errors: back-off and recovery, giving up after acceptMaxRetry 1..8 failures, Server.Close with sessions alive (accept-errors/*; a scenario whose descriptor-table set-up cannot be verified is dropped and counted), session accessors Set/Get/SetRemoteAddr/Logger on every directly started session, the manager's own read and "
+        "stalled peer that later reads), blocked write then each event, zero-length payloads between real ones, slow drain (50-65 queued sends, local Close, write timeout 800 ms, a peer reading one chunk every 40 ms so that the drain lasts 2-4 write timeouts while no write waits near one; net.Pipe and loopback TCP with every payload byte 8 KiB on the wire and 32 KiB socket buffers; a case is emitted only when the longest interval between peer reads and the latest 2 ms watchdog tick both stayed below a third of the write timeout, else retried up to 3 times and dropped, counted in harness_meta), concurrent Sends from 2-8 goroutines on one session in one to three rounds, then Close (small payloads, and large ones: every payload symbol is 8 or 32 KiB handed to Session.Send, 40 KiB-1.1 MiB per call, folded back by the peer; the calls are released by a spin barrier so that they overlap; the phase is marked concurrent and the order in which the calls took effect is read off the observation and checked in Coq to be a permutation of them), peer bytes written after the session is over (the handler must stay silent), a third of all scenarios with a connection whose Close closes and then returns an error, every way the read handler can unwind the receive loop, each deterministically on both transports (class handler-end: panic with a string / with nil - recover() answers nil under the go 1.19 semantics of the module - / with an error value / with a user type, runtime.Goexit), histories on one manager (a session ends with a write error while a payload is in hand, then a healthy session queues several equally sized payloads before its peer reads, then Close), an exit callback that takes 300 us in all racing classes and half of the walks (schedule perturbation only), Session.UpdateHandler before Start / after Start / twice / back to the manager's handler / after the exit / racing with the terminating event (class handler/*), a terminating event in the same burst as Start (start-race/*), the accept loop under genuine temporary Accept errors: back-off and recovery, giving up after acceptMaxRetry 1..8 failures, Server.Close with sessions alive (accept-errors/*; a scenario whose descriptor-table set-up cannot be verified is dropped and counted), session accessors Set/Get/SetRemoteAddr/Logger on every directly started session, several servers in one process (every accept scenario also starts one or two other stcp servers with different WithMaxConn / retry options before or after its own and leaves them idle: each server must go by the options it was started with), flush through the real accept path (class accept-flush: Server with the real SessionMgr as connection manager so that the accepted *net.TCPConn reaches SessionMgr.Do unwrapped, 80-110 Sends of 8-10 symbols of 32 KiB each - about 25 MiB, far beyond the socket buffers -, local Close, the peer starts to read only afterwards and must get every byte in order and then the end of the stream), the manager's own read and "
         "write deadlines firing, accept loop with maxConn 0..3 (random arrivals, surplus, exits, re-arrivals), several "
         "sessions on one manager, random walks with bursts; non-trivial = at least one session ended (OnExit observed) "
         "or one connection was closed on accept; distinct = distinct Coq case term"
